@@ -99,6 +99,13 @@ def apply_faults(tokens, faults):
                         "BEGIN_" + toks[j][0]
                     toks[j] = (new, "word", None)
                     break
+        elif kind == "double-open":
+            # the first units expression at or after i gets its opening delimiter twice
+            # ('<<m>'): a units delimiter is no units character
+            for j in list(range(i, len(toks))) + list(range(0, i)):
+                if toks[j][1] == "units":
+                    toks[j] = ("<" + toks[j][0], "badunits", None)
+                    break
         elif kind == "wrong-end":
             # the first end keyword at or after i becomes the one of the other block kind
             for j in list(range(i, len(toks))) + list(range(0, i)):
@@ -173,6 +180,7 @@ def fault_strategy():
         st.tuples(st.just("badword"), idx),
         st.tuples(st.just("begin-form"), idx),
         st.tuples(st.just("wrong-end"), idx),
+        st.tuples(st.just("double-open"), idx),
     )
     return st.lists(one, min_size=1, max_size=3)
 
@@ -358,7 +366,7 @@ def single_faults(acc, d):
                        ("cut", i, 1), ("cut", i, 2), ("badchar", i, 0),
                        ("badchar", i, 1), ("badunits", i), ("unclose", i),
                        ("unclose-quote", i), ("badword", i), ("begin-form", i),
-                       ("nul", i), ("wrong-end", i)]
+                       ("nul", i), ("wrong-end", i), ("double-open", i)]
             faults += [("replace", i, k) for k in range(len(PUNCT) + 4)]
         for f in faults:
             toks = apply_faults(base, [f])
